@@ -36,7 +36,7 @@ Unit(
     props=["C21"],
     params={"self": "obj:TextXVisitor", "node": "any", "children": "list[str]"},
     calls={
-        "decode_escapes": Ext("decode_escapes", returns="str", raises=None, pure=True,
+        "decode_escapes": Ext("decode_escapes", returns="str", raises=["=UnicodeDecodeError:ValueError"], pure=True,
                               ensures=["result == decoded(a0)"],
                               note="unicode-escape decoding of the literal (pure function of its text)"),
         "self.keyword_regex.match": Ext(
@@ -52,6 +52,8 @@ Unit(
                                    note="compiles the pattern of the RegExMatch (T-ARP)"),
         "StrMatch": Ext("StrMatch", returns="obj:StrMatch", raises=None,
                         note="arpeggio.StrMatch(to_match, ignore_case=) (T-ARP)"),
+        "self.grammar_parser.pos_to_linecol": Ext("pos_to_linecol", returns="tuple", raises=None, pure=True,
+                                                  ensures=["result == (result[0], result[1])"]),
     },
     modifies=["*"],
     ensures=[
